@@ -34,7 +34,7 @@ from vf import core
 from vf.gen import species as S
 
 ID = 'C11'
-N = {'quick': 2000, 'thorough': 40000}
+N = {'quick': 2000, 'thorough': 70000}
 NT_RULE = ('one object tree per case: class drawn uniformly from the 33 classes of the quantifier, '
            'attributes and nested objects drawn from a PRNG seeded per case index (after directed '
            'witnesses of every pre-finding); 1-3 encode/decode cycles and 2-3 evaluation conditions; '
@@ -97,7 +97,7 @@ ASSUMPTIONS = [
 # (the flag is not stored, the constructor re-attaches on reload).  Genuine defect found while
 # strengthening; set to True to turn the telemetry into a generated stratum with verdicts once it
 # is fixed or listed.
-GEN_NO_P_ADJ = False
+GEN_NO_P_ADJ = True
 TOL = 1e-12
 
 
